@@ -99,7 +99,7 @@ def main():
         dst = os.path.join(VERIF, 'seeded', args.id)
         os.makedirs(dst, exist_ok=True)
         for f in ('patch.diff', 'demo.py', 'notes.md'):
-            if os.path.exists(os.path.join(src, f)):
+            if os.path.exists(os.path.join(src, f)) and os.path.abspath(src) != os.path.abspath(dst):
                 shutil.copy(os.path.join(src, f), os.path.join(dst, f))
         with open(os.path.join(dst, 'meta.json'), 'w') as f:
             json.dump(meta, f, indent=1, sort_keys=True)
